@@ -116,6 +116,7 @@ def build_texts(tier):
         texts += F.consuming_singles(ops + ["SMOD", "SAR", "BYTE", "SIGNEXTEND"])
         texts += F.f_exh(2)
         texts += F.f_mem_consuming()
+        texts += F.f_mem_shared_values(deltas=(0, 32), tail=(None,), head=("SLOAD", "MLOAD"))
     else:
         texts += F.f_mem((2,))
         texts += F.f_mem((3,), deltas=[0, 1, 32], ops=("MSTORE", "MLOAD", "MSTORE8", "KECCAK256"))[::3]
@@ -130,6 +131,7 @@ def build_texts(tier):
         texts += F.consuming_singles(ops + ["SMOD", "SAR", "BYTE", "SIGNEXTEND"])
         texts += F.f_exh(3)
         texts += F.f_mem_consuming(deltas=(0, 1, 31, 32))
+        texts += F.f_mem_shared_values(deltas=(0, 1, 32), tail=(None, "MLOAD"), head=("SLOAD", "MLOAD"))
     seen, uniq = set(), []
     for t in texts:
         if t not in seen:
